@@ -43,7 +43,7 @@ META = dict(
     engine='sched',
     technique='stateless DFS over all start/finish schedules of a virtual worker pool driving the unmodified Lib.build; '
               'explored schedules forced on the real ProcessPoolExecutor through a gating compiler',
-    level_text='every module-dependency DAG on <=4 (quick) / <=5 (thorough) source files x W in {2,3} workers x every schedule '
+    level_text='every labelled module-dependency DAG on <=4 source files (thorough: + every DAG on 5 files up to relabelling) x W in {2,3} workers x every schedule '
                'of compile start/finish events (plus serial), with single deviations (module name != file stem, second module '
                'in a file, object already up to date)',
     level_note='virtual pool = model of ProcessPoolExecutor (FIFO hand-out, W workers), validated by replaying explored '
@@ -504,6 +504,15 @@ def is_canonical(uses):
     return True
 
 
+def mirror(uses):
+    """relabel file i as n-1-i"""
+    n = len(uses)
+    out = [None] * n
+    for i, u in enumerate(uses):
+        out[n - 1 - i] = tuple(sorted(n - 1 - j for j in u))
+    return tuple(out)
+
+
 def _parity(uses):
     """deterministic 0/1 per DAG (independent of exploration order): spreads W=2 / W=3 over the DAGs"""
     return (sum(len(u) for u in uses) + sum(i * j for i, u in enumerate(uses) for j in u)) % 2
@@ -529,7 +538,13 @@ def run(ctx):
     slots = max(1, ctx.nproc // 2 if ctx.nproc <= 4 else ctx.nproc // 4)    # real-pool runs alive at the same time (each: manager + W workers + controller + participants)
     units = []
     for n in range(1, nmax + 1):
-        for uses in all_dags(n):
+        dags = all_dags(n)
+        if n == 5:
+            # 29281 labelled DAGs on 5 files (2.4 million schedules): one DAG per isomorphism class, in two labellings
+            # (the canonical one and its mirror image, i.e. the library lists its sources in opposite orders)
+            reps = [d for d in dags if is_canonical(d)]
+            dags = sorted(set(reps) | {mirror(d) for d in reps})
+        for uses in dags:
             for dev in (deviations(uses) if n <= dev_nmax else [None]):
                 units.append(dict(uses=[list(u) for u in uses], dev=list(dev) if dev else None, seed=ctx.seed,
                                   workers=[2, 3], full=(n <= full_nmax and dev is None), scratch=scratch,
@@ -639,7 +654,8 @@ def run(ctx):
                                        'on 4 files')
                                     + '; gfortran + nm (serial vs parallel build): the same DAGs')),
         wall=dict(explore=round(t_explore, 1), real_pool=round(t_real, 1), gfortran=round(t_gf, 1)),
-        rule='cases = every labelled module-dependency DAG on 1..n files x single deviations; per case the serial build and '
+        rule='cases = every labelled module-dependency DAG on 1..4 files' + ('' if ctx.quick else ' + one DAG per isomorphism class '
+             'on 5 files in two labellings') + ' x single deviations; per case the serial build and '
              'every schedule (DFS over all choices of the next start/finish event) for W=2 and W=3; a trace is the sequence '
              'of compile start/finish events; distinct_nontrivial = number of distinct traces summed over (case, W); '
              'states/transitions = distinct (main-thread position, pool state) pairs and (state, event) pairs per (case, W), summed',
